@@ -3,7 +3,7 @@ import ast
 
 from ..model import AnalysisError, Model, walk_no_nested, norm_stmt, names_in
 from ..callgraph import CallGraph
-from .. import flow, loops, effects, sem
+from .. import flow, loops, effects, sem, intervals
 
 EXPLANATION = (
     'Progress arguments decided from source shape: (R1) every BER/DER type-level decode call handles the TAG_MISMATCH '
@@ -12,10 +12,15 @@ EXPLANATION = (
     '(R3) every for-loop whose count comes from the wire is bounded by configuration, by a primitive with a constant '
     'bound, by an earlier guarded read of that many bits, or consumes input unconditionally; (R4) no decode-reachable '
     'method writes state that outlives the call; (R5) BER contents are reached only through decode_length whose '
-    'missing-data test is present.  Not decided: a bound proportional to the input, recursion depth, JER/XER parsing.')
+    'missing-data test is present; (R6) exponents of ** are bounded; (R7) the read position only moves forward: interval abstract '
+    'interpretation shows every input-dependent amount handed to a consuming Decoder primitive (skip_bits, read_bits, read_bytes, '
+    'read_non_negative_binary_integer -- derived from the Decoder classes) to be non-negative, or the primitive never completes on a '
+    'negative amount.  Not decided: a bound proportional to the input, recursion depth, JER/XER parsing.')
 ASSUMPTIONS = ['a successful BER type-level decode advances the offset by at least the tag and length octets',
                'PER/OER Decoder primitives are guarded (C16.R1)',
-               'name-based call resolution inside a codec family']
+               'name-based call resolution inside a codec family',
+               'R7: configuration attributes (self.<attr> of a type object) that enter amount arithmetic are non-negative; a value returned by a helper '
+               'that is not a Decoder method is not tracked (such an amount is reported as configuration-only, never as a violation)']
 
 BER = 'asn1tools/codecs/ber.py'
 DER = 'asn1tools/codecs/der.py'
@@ -523,6 +528,58 @@ def check(ctx):
                 ctx.violation('C08.R5', rel, f, Model.qual(f), 'contents decoded without going through decode_length', stmt='no decode_length')
     ctx.floor('C08.R5', 3)
 
+    # ---- R7: the read position only moves forward.  Interval abstract interpretation (sa/intervals.py) of the *amount* handed to every consuming
+    #      Decoder primitive of the bit-stream codecs.  A negative amount passes the `amount > self.number_of_bits` guard of the primitives and moves
+    #      the read position backwards: the same octets are decoded again, and with a recursive type the work grows exponentially with the input.
+    ctx.rule('C08.R7', 'amounts handed to consuming Decoder primitives are non-negative wherever they depend on the input (interval analysis), or the primitive rejects them')
+    n7 = 0
+    for rel in ('asn1tools/codecs/per.py', 'asn1tools/codecs/uper.py', 'asn1tools/codecs/oer.py'):
+        mod = model.mod(rel)
+        dcs = intervals.decoder_classes(model, [rel])
+        if not dcs:
+            raise AnalysisError('%s has no Decoder class' % rel)
+        facts = intervals.DecoderFacts(dcs[0])
+        if not facts.prims:
+            raise AnalysisError('%s: no consuming primitive found in %s' % (rel, dcs[0].qname))
+        ctx.instance('C08.R7', '%s consuming primitives: %s' % (dcs[0].qname, ', '.join('%s%s' % (k, ' (a negative amount never completes)' if v else '') for k, v in sorted(facts.prims.items()))),
+                     'derived', nontrivial=False, file=rel)
+        funcs = [(c, f) for c in mod.classes.values() for f in c.methods.values()] + [(None, f) for f in mod.functions.values()]
+        for c, f in funcs:
+            names = [a.arg for a in f.args.args if 'decoder' in a.arg.lower()]
+            names += [t.id for n in walk_no_nested(f) if isinstance(n, ast.Assign) and isinstance(n.value, ast.Call) and ast.unparse(n.value.func).split('.')[-1] == 'Decoder'
+                      for t in n.targets if isinstance(t, ast.Name)]
+            indec = c is not None and c in dcs
+            if not names and not indec:
+                continue
+            try:
+                a = intervals.Analysis(f, decoder_names=names, in_decoder=indec, summaries=lambda k: facts.ret.get(k), facts=facts).run()
+            except RecursionError:
+                ctx.instance('C08.R7', '%s amounts' % Model.qual(f), 'undecided', 'recursion limit', nontrivial=False, node=f, file=rel)
+                continue
+            for node, iv, name in sorted(a.calls.values(), key=lambda t: (t[0].lineno, t[0].col_offset)):
+                if name not in facts.prims:
+                    continue
+                n7 += 1
+                harmless = facts.prims[name]
+                g = a.callee_of.get(id(node))
+                where = Model.qual(f) if g is None else '%s (called from %s)' % (Model.qual(g), Model.qual(f))
+                if iv.nn():
+                    verdict = 'non-negative %s' % iv
+                elif not iv.wire:
+                    verdict = 'configuration only %s' % iv
+                elif harmless:
+                    verdict = 'may be negative %s, but %s never completes on a negative amount' % (iv, name)
+                else:
+                    verdict = 'VIOLATION'
+                ctx.instance('C08.R7', '%s: %s' % (where, ast.unparse(node)[:90]), verdict, nontrivial=iv.wire, node=node, file=rel)
+                if verdict == 'VIOLATION':
+                    ctx.violation('C08.R7', rel, node, Model.qual(g if g is not None else f),
+                                  'the amount of %s depends on the input and may be negative (%s): %s accepts a negative amount and moves the read position backwards, so '
+                                  'the same input is decoded again (exponential work on recursive types, values decoded from the wrong place)'
+                                  % (ast.unparse(node)[:120], iv, name), stmt=norm_stmt(Model.enclosing_stmt(node)))
+    if n7 < 25:
+        raise AnalysisError('C08.R7 examined only %d consuming calls (floor 25)' % n7)
+
 
 def decode_length_missing_data(model):
     """Every path on which ber.decode_length returns a definite length (L, O) has established  not (O + L > len(buffer)),
@@ -653,3 +710,28 @@ MUTANTS.append(dict(name='binary REAL exponent read with a length taken from the
     elif control in [0x81, 0xc1]:
         exponent = ((data[1] << 8) | data[2])
 """, expect='C08.R6'))
+
+MUTANTS.append(dict(name='PER SEQUENCE additions skip to the declared end of the open type (may lie behind the read position)', quick=True,
+                    edits=[dict(file='asn1tools/codecs/per.py', old="""                open_type_length = decoder.read_length_determinant()
+                offset = decoder.number_of_bits
+""", new="""                open_type_length = decoder.read_length_determinant()
+                open_type_end = decoder.number_of_bits - 8 * open_type_length
+"""), dict(file='asn1tools/codecs/per.py', old="""                else:
+                    decoder.skip_bits(8 * open_type_length)
+
+                alignment_bits = (offset - decoder.number_of_bits) % 8
+
+                if alignment_bits != 0:
+                    decoder.skip_bits(8 - alignment_bits)
+""", new="""
+                decoder.skip_bits(decoder.number_of_bits - open_type_end)
+""")], expect='C08.R7'))
+MUTANTS.append(dict(name='OER unknown addition skipped by length minus the octets already seen', file='asn1tools/codecs/oer.py',
+                    old="                    decoder.skip_bits(8 * member_length)", new="                    decoder.skip_bits(8 * (member_length - 1))", expect='C08.R7'))
+REFACTORS.append(dict(name='PER CHOICE addition: remaining length computed in a local and tested before the skip', file='asn1tools/codecs/per.py',
+                      old="""            length -= (offset - decoder.number_of_bits)
+
+            if length < 0:""", new="""            consumed = offset - decoder.number_of_bits
+            length = length - consumed
+
+            if not length >= 0:"""))
